@@ -100,6 +100,7 @@ inductive MetricErr where
   | unequal       -- MetricsException "trajectories must have same number of poses"
   | unsupported   -- MetricsException "unsupported pose_relation"
   | notSO3        -- LieAlgebraException "matrix is not a valid SO(3) group element"
+  | badIndex      -- IndexError: a pair index outside the trajectory (RPE only; never from evo's own pair selection)
 deriving DecidableEq, Repr
 
 /-- the rotation blocks the angle relations hand to `so3_log_angle` -/
@@ -278,6 +279,7 @@ def showCores (l : List (Core Rat)) : String := " ".intercalate (l.map showCore)
 
 def showMetricErr : MetricErr → String
   | .unequal => "E_METRICS:len" | .unsupported => "E_METRICS:rel" | .notSO3 => "E_GEOMETRY"
+  | .badIndex => "E_INDEX"
 
 def optRat? (s : String) : Option (Option Rat) :=
   if s = "-" then some none else (parseRat? s).map some
